@@ -87,12 +87,17 @@ def make_tagger(variant_seed: int, density: float):
                     nm = f"nm{ordinal}_{variant_seed % 1000}"
                 return node.tagged((Named(nm), ImplStored()))
             if c == "redn":
+                # a non-empty subset of the reduction variables / axes, tagged one after the other in a random order
                 if isinstance(node, IndexLambda) and node.var_to_reduction_descr:
-                    v = sorted(node.var_to_reduction_descr)[0]
-                    return node.with_tagged_reduction(v, UserRednTag())
+                    vs = sorted(node.var_to_reduction_descr)
+                    for v in r.sample(vs, r.randint(1, len(vs))):
+                        node = node.with_tagged_reduction(v, UserRednTag())
+                    return node
                 if isinstance(node, Einsum) and node.redn_axis_to_redn_descr:
-                    ax = sorted(node.redn_axis_to_redn_descr, key=lambda a: a.dim)[0]
-                    return node.with_tagged_reduction(ax, UserRednTag())
+                    axs = sorted(node.redn_axis_to_redn_descr, key=lambda a: a.dim)
+                    for ax in r.sample(axs, r.randint(1, len(axs))):
+                        node = node.with_tagged_reduction(ax, UserRednTag())
+                    return node
                 return node
         except (ValueError, TypeError, NotImplementedError) as e:
             stats[f"rejected:{c}:{type(e).__name__}"] = stats.get(f"rejected:{c}:{type(e).__name__}", 0) + 1
@@ -101,6 +106,63 @@ def make_tagger(variant_seed: int, density: float):
     tagger.stats = stats
     tagger.named_from_pool = False
     return tagger
+
+
+def batch_reduction_descriptor_tags(ctx):
+    """tags on reduction descriptors of reductions over SEVERAL indices (einsum and sum/amax over axis tuples): every
+    non-empty subset of the reduction indices tagged, in every order, directly and through unify_axes_tags — tagged =
+    untagged = NumPy"""
+    import itertools
+    import pytato as pt
+    from pytato.array import Einsum, IndexLambda
+    from ..refeval import close
+    rng = np.random.default_rng(ctx.seed + 771)
+    A, B, M = rng.integers(-3, 4, (2, 3, 4)) / 2.0, rng.integers(-3, 4, (3, 4)) / 2.0, rng.integers(-3, 4, (3, 3)) / 2.0
+    a, b, m = (pt.make_placeholder(n, v.shape, np.float64) for n, v in (("a", A), ("b", B), ("m", M)))
+    base = {"ijk,jk->i": (pt.einsum("ijk,jk->i", a, b), np.einsum("ijk,jk->i", A, B), {"a": A, "b": B}),
+            "jk,kj->": (pt.einsum("jk,kj->", m, m), np.einsum("jk,kj->", M, M), {"m": M}),
+            "ijk,ijk->": (pt.einsum("ijk,ijk->", a, a), np.einsum("ijk,ijk->", A, A), {"a": A}),
+            "sum(axis=(0,2))": (pt.sum(a, axis=(0, 2)), np.sum(A, axis=(0, 2)), {"a": A}),
+            "amax(all)": (pt.amax(a), np.amax(A), {"a": A})}
+    jobs, meta = [], []
+    for lbl, (node, ref, inp) in base.items():
+        keys = sorted(node.redn_axis_to_redn_descr, key=lambda x: x.dim) if isinstance(node, Einsum) \
+            else sorted(node.var_to_reduction_descr)
+        variants = [("untagged", node)]
+        for k in range(1, len(keys) + 1):
+            for order in itertools.permutations(keys, k):
+                t = node
+                try:
+                    for key in order:
+                        t = t.with_tagged_reduction(key, UserRednTag())
+                except Exception as e:   # noqa: BLE001
+                    ctx.violation("tags:reduction-descriptor:tagging-fails",
+                                  f"{lbl}: tagging the reduction indices {[str(x) for x in order]} one after the other raises "
+                                  f"{type(e).__name__}: {str(e)[:120]}", {"form": lbl, "order": [str(x) for x in order]})
+                    continue
+                variants.append((f"tag{[str(x) for x in order]}", t))
+        for vn, t in variants:
+            for through in ("direct", "unify_axes_tags"):
+                expr = pt.make_dict_of_named_arrays({"o": t * 2 + 1})
+                jobs.append(cexec.Job(tag=f"{lbl}:{vn}:{through}", expr=expr, runs=[inp], kir_orders=0,
+                                      prep=(_prep_dedup if through == "direct" else _prep_dedup_unify)))
+                meta.append((lbl, vn, through, np.asarray(ref) * 2 + 1))
+    dis = 0
+    for (lbl, vn, through, ref), r in zip(meta, cexec.run_jobs(ctx, jobs)):
+        if r.error and str(r.stage).startswith("c-"):
+            continue
+        if r.error or not r.outputs or not close(r.outputs[0].get("o"), ref):
+            dis += 1
+            ctx.violation("tags:reduction-descriptor:tagged-differs",
+                          f"{lbl} with {vn} ({through}): " + (f"{r.stage} fails: {str(r.error).splitlines()[0][:140]}" if r.error
+                                                              else "values differ from NumPy"),
+                          {"form": lbl, "variant": vn, "through": through})
+    ctx.note_batch("tags-on-reduction-descriptors-of-multi-index-reductions", len(jobs), dis, exhaustive=True)
+
+
+def _prep_dedup_unify(expr):
+    import pytato as pt
+    return pt.unify_axes_tags(pt.transform.deduplicate(expr))
 
 
 def run(ctx: common.Ctx):
@@ -117,6 +179,7 @@ def run(ctx: common.Ctx):
     ctx.lean_obligations("PtProofs.C01GenRedEx", THEOREMS_GEN_RED)
     from .cfg_createdat import batch_createdat
     batch_createdat(ctx, "C07")
+    batch_reduction_descriptor_tags(ctx)
     nprog = 600 if ctx.thorough else 90
     nvar = 6 if ctx.thorough else 3
     nprng = np.random.default_rng(ctx.seed * 17 + 7)
